@@ -8,6 +8,7 @@ import Driver.InitSuite
 import Driver.InitSpec
 import Driver.BeaconSuite
 import Driver.NodeSuite
+import Driver.NodeSpec
 /-
   vpmodel: reads lines `op<TAB>implementation observation`, prints `model observation<TAB>spec verdict`.
 -/
@@ -20,6 +21,7 @@ structure DState where
   init : ISt := {}
   initRef : IRef := {}
   node : NSt := {}
+  nodeRef : NRef := {}
 
 def stepLine (st : DState) (line : String) : DState × String :=
   let parts := line.splitOn "\t"
@@ -54,7 +56,9 @@ def stepLine (st : DState) (line : String) : DState × String :=
     ({ st with init := is, initRef := rf }, m ++ "\t" ++ sv)
   | none =>
   match nodeStep st.node toks implObs with
-  | some (ns, m, s) => ({ st with node := ns }, m ++ "\t" ++ s)
+  | some (ns, m, _) =>
+    let (rf, sv) := nodeRefStep st.nodeRef toks implObs
+    ({ st with node := ns, nodeRef := rf }, m ++ "\t" ++ sv)
   | none => (st, "bad-op\t-")
 
 partial def loop (h : IO.FS.Stream) (out : IO.FS.Stream) (st : DState) : IO Unit := do
